@@ -323,8 +323,27 @@ def cargo_cmd(pkg, bin_name):
     return cmd + (["-p", pkg] if pkg else []) + ["--bin", bin_name]
 
 
+def refresh_workspace_members():
+    """harness/Cargo.toml lists exactly the hx_* directories that have a Cargo.toml (a crate
+    directory that is still being created must not break everybody else's build)"""
+    path = os.path.join(HARNESS, "Cargo.toml")
+    text = open(path).read()
+    def has_target(d):
+        src = os.path.join(HARNESS, d, "src")
+        return (os.path.exists(os.path.join(src, "lib.rs")) or os.path.exists(os.path.join(src, "main.rs"))
+                or bool(glob.glob(os.path.join(src, "bin", "*.rs"))))
+    members = ["vh"] + sorted(d for d in os.listdir(HARNESS)
+                              if d.startswith("hx_") and os.path.exists(os.path.join(HARNESS, d, "Cargo.toml")) and has_target(d))
+    want = "members = [" + ", ".join('"%s"' % m for m in members) + "]"
+    new = re.sub(r"members = \[[^\]]*\]", want, text, count=1)
+    if new != text:
+        with open(path, "w") as f:
+            f.write(new)
+
+
 def harness_build(bin_name, pkg=None, timeout=2400):
     with Lock("cargo"):
+        refresh_workspace_members()
         lock_src = os.path.join(REPO, "Cargo.lock")
         lock_dst = os.path.join(HARNESS, "Cargo.lock")
         if not os.path.exists(lock_dst):
